@@ -1314,6 +1314,15 @@ func derivesFrom(v ssa.Value, src func(ssa.Value) bool) bool {
 			return walk(v.X, d+1)
 		case *ssa.TypeAssert:
 			return walk(v.X, d+1)
+		case *ssa.Call:
+			// pure arithmetic helpers: the result derives from the arguments
+			if n := calleeName(v); strings.HasPrefix(n, "math/bits.") || strings.HasPrefix(n, "github.com/ava-labs/avalanchego/utils/math.") {
+				for _, a := range v.Call.Args {
+					if walk(a, d+1) {
+						return true
+					}
+				}
+			}
 		}
 		return false
 	}
